@@ -21,6 +21,19 @@ CLAIMED = {
         "note": "floats as reals; labels from a concrete list; sx engine/loader and the reference model are trusted; counterexamples "
                 "are replayed on the plain library before being reported",
     },
+    "C05": {
+        "category": "model_checking",
+        "text": "The real DataSet constructor and operations are executed symbolically: frequencies (distinct, monotonic, either "
+                "direction), complex impedances, mask key sets and flags, cut-offs and subtracted values are z3 variables. After "
+                "construction and after every step of each operation history (set_mask, low_pass, high_pass, subtract_impedances, "
+                "to_dict->json->from_dict incl. twice and without optional keys, duplicate, average) z3 decides per path whether any "
+                "public view (full / unmasked / masked, mask) can differ from a list-of-triples reference model, whether the full view "
+                "can fail to be descending, whether ascending+mask and descending+mirrored-mask can mask different points, and whether "
+                "the caller's mask dictionary can change. Exhaustive within n<=3 (4) points and histories <=2 (3).",
+        "design_ref": "DESIGN.md section 4, C05",
+        "note": "monotonic input assumed (as the property states); floats as reals; json modelled structurally in the symbolic run and "
+                "real json in the replay; sx engine/shim and reference model trusted",
+    },
 }
 
 NOT_APPLICABLE = {
